@@ -346,6 +346,7 @@ PROPS["C14"] = dict(
     title="Inbound authentication: only traffic sealed under an installed key is acted on",
     pkg="./props/c14",
     level="exploration",
+    technique="property-based testing (rapid) + single-bit sweep over short sealed messages + native coverage-guided fuzzing; oracle = three-way differential (nothing delivered / genuine / modified) on twin nodes",
     rule=("three identically prepared real nodes per case (keyring of three keys - primary, a middle and a last one -, verify-incoming on, optionally with the inbound label check delegated so that genuine traffic carries no header, label none or 'lbl', peers speaking encryption version 0 or "
           "1, two known members): nothing delivered / one genuine message of each of 21 kinds (ping, anonymous ping, indirect ping, ack, nack, alive new/newer, "
           "suspect, dead, leave, suspicion about the node, user, compound, compressed, CRC; stream push/pull join and anti-entropy, compressed push/pull, user, "
@@ -353,7 +354,7 @@ PROPS["C14"] = dict(
           "header; truncation, extension, splice of two ciphertexts, other/no/added label header, other associated label, foreign key, another cluster's complete traffic (its header and its associated label), key removed before delivery (the middle or the last one; the other must keep working) or while the stream is being read, key installed after sealing, secondary key, plaintext, double sealing. Outcome = state dump + delegate log + decoded replies to the sender "
           "+ health; oracle: outcome(modified) equals outcome(nothing) (a rejected stream may add one generic error reply) or outcome(genuine), and must be "
           "nothing for foreign/removed keys, wrong labels and plaintext. non-trivial = non-identity modification of a message whose genuine delivery is visible; "
-          "distinct = distinct (message, modification, configuration)"),
+          "distinct = distinct (message, modification, configuration); thorough adds native coverage-guided fuzzing of the same oracle (message, configuration, XOR mask and offset over the sealed bytes)"),
     tests=[
         dict(name="auth", run="^TestAuthentication$",
              quick=dict(shards=16, checks=250, timeout=600),
